@@ -574,35 +574,44 @@ class CFG:
                 if s in avoid:
                     continue
                 if feasible:
-                    sn = self.nodes[s]
-                    killed = {d.name for d in sn.defs}
-                    if killed and a2:
-                        val = None
-                        if sn.kind == "stmt" and isinstance(sn.ast, ast.Assign) and len(sn.ast.targets) == 1 and isinstance(sn.ast.targets[0], ast.Name):
-                            # constant propagation of booleans along the path: `done = terminated or truncated`
-                            val = self.eval3(sn.ast.value, dict(a2), s) if isinstance(sn.ast.value, (ast.BoolOp, ast.UnaryOp, ast.Name, ast.Constant)) else None
-                            if isinstance(sn.ast.value, ast.Constant) and not isinstance(sn.ast.value.value, bool):
-                                val = None
-                        extra = []
-                        if sn.kind == "stmt" and isinstance(sn.ast, ast.Assign) and len(sn.ast.targets) == 1 and isinstance(sn.ast.targets[0], (ast.Tuple, ast.List)) \
-                                and isinstance(sn.ast.value, (ast.Tuple, ast.List)) and len(sn.ast.value.elts) == len(sn.ast.targets[0].elts):
-                            # element-wise copies `a, b = (c, d)` (also produced by helper expansion) carry the truth values along
-                            for t_, v_ in zip(sn.ast.targets[0].elts, sn.ast.value.elts):
-                                if isinstance(t_, ast.Name) and isinstance(v_, (ast.BoolOp, ast.UnaryOp, ast.Name)):
-                                    ev = self.eval3(v_, dict(a2), s)
-                                    if ev is not None:
-                                        extra.append((t_.id, ev))
-                        a2 = frozenset((k, v) for k, v in a2 if not (killed & _idents(k)))
-                        if val is not None:
-                            a2 = a2 | {(sn.ast.targets[0].id, val)}
-                        if extra:
-                            a2 = a2 | frozenset(extra)
+                    a2 = self.propagate(s, a2)
                 st = (s, a2)
                 if st in seen:
                     continue
                 seen.add(st)
                 stack.append((s, a2, path + [s]))
         return None
+
+    def propagate(self, s: int, a2: frozenset) -> frozenset:
+        """Literals that hold after executing node ``s`` when ``a2`` held before: literals over redefined names are dropped, boolean
+        values are propagated through `x = <boolean constant / expression over known literals>` and element-wise tuple copies."""
+        sn = self.nodes[s]
+        killed = {d.name for d in sn.defs}
+        if not killed:
+            return a2
+        val = None
+        if sn.kind == "stmt" and isinstance(sn.ast, ast.Assign) and len(sn.ast.targets) == 1 and isinstance(sn.ast.targets[0], ast.Name):
+            # constant propagation of booleans along the path: `done = terminated or truncated`, `due = False`
+            val = self.eval3(sn.ast.value, dict(a2), s) if isinstance(sn.ast.value, (ast.BoolOp, ast.UnaryOp, ast.Name, ast.Constant)) else None
+            if isinstance(sn.ast.value, ast.Constant) and not isinstance(sn.ast.value.value, bool):
+                val = None
+        extra = []
+        if sn.kind == "stmt" and isinstance(sn.ast, ast.Assign) and len(sn.ast.targets) == 1 and isinstance(sn.ast.targets[0], (ast.Tuple, ast.List)) \
+                and isinstance(sn.ast.value, (ast.Tuple, ast.List)) and len(sn.ast.value.elts) == len(sn.ast.targets[0].elts):
+            # element-wise copies `a, b = (c, d)` (also produced by helper expansion) carry the truth values along
+            for t_, v_ in zip(sn.ast.targets[0].elts, sn.ast.value.elts):
+                if isinstance(t_, ast.Name) and isinstance(v_, (ast.BoolOp, ast.UnaryOp, ast.Name, ast.Constant)):
+                    if isinstance(v_, ast.Constant) and not isinstance(v_.value, bool):
+                        continue
+                    ev = self.eval3(v_, dict(a2), s)
+                    if ev is not None:
+                        extra.append((t_.id, ev))
+        a2 = frozenset((k, v) for k, v in a2 if not (killed & _idents(k)))
+        if val is not None:
+            a2 = a2 | {(sn.ast.targets[0].id, val)}
+        if extra:
+            a2 = a2 | frozenset(extra)
+        return a2
 
     def describe_path(self, path) -> list[str]:
         out = []
